@@ -1,4 +1,4 @@
-// finding=F111 property=C05 status=known kind=exec-glsl
+// finding=F111 property=C05 status=fixed kind=exec-glsl
 // GLSL: integer dot() is expanded only when the argument's recorded expression type is an integer vector; for a typed let of a splat constant inside a helper function the type is not recorded and `dot(l, l)` on uvec2 is emitted, which is not valid GLSL (dot is float-only)
 struct S11 {
     m10: vec4<f32>,
